@@ -306,3 +306,49 @@ LEVEL_TEXT = ("Deductive: cache representation invariant (inductive over inserti
               "maps and lists explored up to 2 entries (labelled bounded). Reference resolution and YAML loading are trusted.")
 LEVEL_NOTE = "Trusted: jsonschema reference resolution (E3), parameter object constructors, PyYAML (E6), pyvc semantics (E9)."
 TECHNIQUE = "contract-based deductive verification: representation invariant and postconditions on the real cache / schema functions via AST->z3 VC generation (pyvc)"
+
+
+# ------------------------------------------------------------------------------------------------- stand-in: the three lookups give the same operation for every path spelling
+def lookups_agree_on_escaped_paths(tier, seed):
+    """Bounded native enumeration: path keys built from segments over an alphabet with the JSON-pointer escape characters ('~', '~0', '~1' as literal text, '{x}', plain text),
+    looked up (a) by path + method, (b) by operationId, (c) by JSON reference `#/paths/<RFC 6901 escaped path>/<method>`: all three must return the SAME operation object with
+    the documented path, in every lookup order."""
+    import itertools
+    import schemathesis
+
+    segs = ["a", "~", "~0", "~1", "~01", "{x}", "a~1b", "~~"]
+    L = 2 if tier == "quick" else 3
+    n = 0
+    viol = []
+    for k in range(1, L + 1):
+        for combo in itertools.product(segs, repeat=k):
+            path = "/" + "/".join(combo)
+            escaped = path.replace("~", "~0").replace("/", "~1")
+            params = [{"name": "x", "in": "path", "required": True, "schema": {"type": "string"}}] if "{x}" in path else []
+            raw = {"openapi": "3.0.2", "info": {"title": "t", "version": "1"}, "paths": {path: {"get": {"operationId": "op", "parameters": params, "responses": {"200": {"description": "ok"}}}},
+                                                                                   "/other": {"get": {"operationId": "other", "responses": {"200": {"description": "ok"}}}}}}
+            for order in (("ref", "path", "id"), ("path", "ref", "id"), ("id", "ref", "path")):
+                n += 1
+                schema = schemathesis.openapi.from_dict(raw)
+                got = {}
+                problem = None
+                try:
+                    for how in order:
+                        if how == "ref":
+                            got[how] = schema.get_operation_by_reference(f"#/paths/{escaped}/get")
+                        elif how == "path":
+                            got[how] = schema[path]["GET"]
+                        else:
+                            got[how] = schema.get_operation_by_id("op")
+                    if not (got["ref"] is got["path"] is got["id"]):
+                        problem = "lookups return different operation objects: " + ", ".join(f"{h}={got[h].path!r}" for h in order)
+                    elif got["ref"].path != path:
+                        problem = f"operation path {got['ref'].path!r}"
+                except Exception as exc:  # noqa: BLE001
+                    problem = f"raised {type(exc).__name__}: {exc}"[:160]
+                if problem and len(viol) < 3:
+                    viol.append({"path": path, "order": list(order), "problem": problem})
+    return {"name": "lookups_agree_on_escaped_paths", "bound": f"paths of up to {L} segments over {segs} x 3 lookup orders", "evaluations": n, "exhaustive": True, "violations": viol}
+
+
+BOUNDED = list(globals().get("BOUNDED", [])) + [lookups_agree_on_escaped_paths]
